@@ -76,7 +76,9 @@ def run_tlc(
     try:
         meta = os.path.join(wd, "meta-%d" % (time.time_ns() % 10**9))
         cfg_path = cfg if os.path.isabs(cfg) else os.path.join(spec_dir, cfg)
-        cmd = _java(heap) + list(jvm_props) + ["tlc2.TLC", "-metadir", meta, "-noGenerateSpecTE",
+        # (TLC unpacks its standard modules into a fresh directory under java.io.tmpdir on every start and leaves it behind:
+        #  keep that inside the scratch directory, which is removed)
+        cmd = _java(heap) + [f"-Djava.io.tmpdir={wd}"] + list(jvm_props) + ["tlc2.TLC", "-metadir", meta, "-noGenerateSpecTE",
                                                 "-workers", str(workers), "-config", cfg_path]
         if not deadlock_check:
             cmd.append("-deadlock")
